@@ -236,7 +236,8 @@ MANIFEST_META = {
     "level_text": "For generated signatures (incl. degenerate), every operator and grade-block operands, the result under a drawn option "
                   "vector {cse, graded, codegen_symbolcls, wrapper, pretty_blade} must be the same element as under default options "
                   "(and as the reference for exact operators), must not raise where the default succeeds, and must store complete "
-                  "grades in graded mode.",
+                  "grades in graded mode."
+                  " Operands include the empty multivector; in a third of the cases a composite operator is generated on the same operands before the operator under test (order of first use); value modes bool / big int / complex.",
     "level_note": "One option vector per case (all 16 x 3 combinations occur across a run; counts in evidence labels). Wrapper is a "
                   "Python pass-through. d<=3 quick, d<=4 thorough.",
 }
